@@ -37,6 +37,8 @@ func SerSels(ss ast.SelectionSet) []interface{} {
 					m["var"] = a.Value.Raw
 				case ast.StringValue:
 					m["str"] = a.Value.Raw
+				case ast.BooleanValue:
+					m["bool"] = a.Value.Raw == "true"
 				}
 				args = append(args, m)
 			}
